@@ -173,12 +173,19 @@ def counters(ctx, rep):
                  'norm[size], str_split words[w], lang_search words[j]): the index is a loop counter with constant start and unit stride whose increment is '
                  'guarded by a comparison against a constant K on every path (must-dataflow), giving index < K (or <= K after the loop); K (resp. K+1) '
                  'does not exceed the element count of every object the base pointer may denote')
-        anchors = {'utf8_nfkd_lazy': 1, 'str_split': 1, 'lang_search': 0}
+        from .rules_cmp import ensure_semantics
+        decided = ensure_semantics(ctx, cfg, P)
+        targets = [(r_.fn, r_.args['out']) for r_ in P.roles('lazy')] + [(r_.fn, r_.args['words']) for r_ in P.roles('tokeniser')]
+        ls_ = P.fns('lang_search')
+        targets += [(g_, n_) for g_ in ls_ for n_, p_ in enumerate(g_.params) if p_['ty'].endswith('*') and not p_['ty'].endswith(')*') and p_['ty'] != 'i8*'][:max(1, len(ls_))]
+        if not P.roles('lazy') or not P.roles('tokeniser') or not ls_: raise AnalysisBroken('anchors of IDX-1 not found (lazy normaliser / tokeniser / lang_search)')
+        anchors = set(base_name(g_.name) for g_, _ in targets)
         nsites = 0
-        for nm, argno in anchors.items():
-            fs = P.fns(nm)
-            if not fs: raise AnalysisBroken('anchor %s not found' % nm)
-            for g in fs:
+        nskipped = 0
+        for g, argno in targets:
+            if g.name in decided:
+                nskipped += 1; rep.ok('%s: bounds of its indexed accesses decided semantically (TOK-1 / LAZY-1)' % base_name(g.name)); continue
+            for _once in (0,):
                 IN, EDGE = must_facts(g, order_facts)
                 fam = cursor_family(g, argno)
                 for i in g.all_insts():
@@ -218,14 +225,16 @@ def counters(ctx, rep):
                               '%s: indexed %s not bounded by its object' % (base_name(g.name), users[0].op),
                               detail={'bound': bound, 'object_sizes_bytes': sizes, 'stride': stride, 'const_offset': const_off},
                               sample={'function': g.name, 'site': i.loc, 'bound': bound, 'objects': sizes}, key='IDX-1|%s|%s' % (base_name(g.name), users[0].op))
-        rep.instances(nsites, 3, 'string-dependent indexed access sites')
+        rep.instances(nsites + 2 * nskipped, 3, 'string-dependent indexed access sites')
 
         rep.rule('IDX-2', 'inventory: every load/store through a variable-index address in the library is covered by one of: concrete bounds-checked '
                  'execution in a bitflow harness (counter-controlled loops), the monotone-counter rule IDX-1, or is a read of a constant table indexed by a '
                  'value proved < table size; anything else is an unclassified indexed access')
         covered = set((fn, loc) for fn, loc in bitflow.ACCESS_LOG)
         from .rules_cmp import comparators
-        cmp_fns = set(base_name(g_.name) for g_, _ in comparators(P)[1].values()) | {'str_split', 'utf8_nfkd_lazy'}
+        cmp_fns = set(base_name(g_.name) for g_, _ in comparators(P)[1].values()) | anchors
+        from .rules_cmp import writer_functions
+        writers_ = set(base_name(g_.name) for g_, _, _ in writer_functions(P))
         ninv = 0
         for g in P.defined.values():
             bn = base_name(g.name)
@@ -245,7 +254,7 @@ def counters(ctx, rep):
                     elif (bn, u.loc) in covered: how = 'bitflow'
                     elif bn in anchors: how = 'IDX-1'
                     elif bn in cmp_fns and u.op == 'load' and u.d['bits'] == 8: how = 'CUR-1 (NUL-cursor discipline, index form)'
-                    elif bn == 'write_str': how = 'HELP-1 (copies exactly the source up to its NUL) + SIZE-1 (the sum of all sources fits the buffer)'
+                    elif bn in writers_: how = 'WRITER-1 / HELP-1 (copies exactly the source up to its NUL) + SIZE-1 (the sum of all sources fits the buffer)'
                     rep.check(how is not None, 'indexed %s at %s in %s is covered (%s)' % (u.op, u.loc, bn, how), u.loc, '%s: unclassified variable-index %s' % (bn, u.op),
                               sample={'site': u.loc, 'function': bn, 'covered_by': how} if ninv <= 4 else None, key='IDX-2|%s|%s' % (bn, u.op))
         rep.instances(ninv, 8, 'variable-index access sites')
@@ -280,10 +289,10 @@ def input_immutability(ctx, rep):
         rep.rule('IN-1', 'NUL-terminated inputs (phrase, password: the caller objects that reach utf8_nfkd_lazy as its source) are read only by the lazy normaliser front end and '
                  'the injected normaliser it calls - whose byte-by-byte, terminator-bounded reading is decided by LAZY-1 / CUR-1; no other function loads from them or hands '
                  'them to memcmp / memcpy / str* with a length of its own (such a read can run past the terminator of a short input)')
-        lazies = P.fns('utf8_nfkd_lazy')
+        lazies = [r_.fn for r_ in P.roles('lazy')]
         strings = set()
-        for lz in lazies:
-            strings |= {o for o in pts.pts.get(('p', lz.name, 0), set()) if o[0] in ('ext', 'extdeep')}
+        for r_ in P.roles('lazy'):
+            strings |= {o for o in pts.pts.get(('p', r_.fn.name, r_.args['src']), set()) if o[0] in ('ext', 'extdeep')}
         rep.instances(len(strings), 2, 'string input objects')
         lazy_closure = set()
         for lz in lazies: lazy_closure |= set(P.reachable_from([lz.name]))
@@ -329,7 +338,7 @@ def normaliser_buffers(ctx, rep):
             for i, t in P.calls(f):
                 outarg = None
                 if t in (('dep', 'u8_nfc'), ('dep', 'u8_nfkd')): outarg = 1
-                elif t[0] == 'direct' and base_name(t[1]) == 'utf8_nfkd_lazy': outarg = 1
+                elif t[0] == 'direct' and P.role_fn(t[1], 'lazy'): outarg = P.role_fn(t[1], 'lazy').args['out']
                 if outarg is None: continue
                 n += 1
                 base, off = addr_base(f, i.ops[outarg])
@@ -346,7 +355,13 @@ def normaliser_buffers(ctx, rep):
         # the fast-path bound
         worst = max(16 * max(len(w) for w in L.words) + 15 * len(L.separator) for L in T.ordered())
         from .rules_bounds import must_facts as mf
-        for g in P.fns('utf8_nfkd_lazy'):
+        from .rules_cmp import ensure_semantics
+        decided = ensure_semantics(ctx, cfg, P)
+        for g in [r_.fn for r_ in P.roles('lazy')]:
+            if g.name in decided:
+                rep.ok('%s: the fast-path copy bound sizeof(polyseed_str)-1 is part of LAZY-1; longest library phrase %d <= %d' % (base_name(g.name), worst, S - 1))
+                rep.check(worst <= S - 1, 'longest library phrase (%d) fits the fast path of the lazy normaliser (%d)' % (worst, S - 1), '%s:%s' % ((g.file or '').replace('/repo/', ''), g.line), base_name(g.name), key='BUF-1|fastpath-bound')
+                continue
             IN, EDGE = must_facts(g, order_facts)
             Ks = set()
             for i in g.all_insts():
@@ -385,13 +400,31 @@ def helper_contracts(ctx, rep):
     for cfg in (ctx.configs('path') if ctx.tier == 'thorough' else ['NsS']):
         P = ctx.prog(cfg)
         if cfg not in rep.configs: rep.configs.append(cfg)
-        from .rules_cmp import nonnul_dataflow
-        rep.rule('HELP-1', 'write_str copies the source up to, not including, its NUL: one loop whose only exit is the NUL test of the source byte at the '
+        from .rules_cmp import nonnul_dataflow, writer_functions, ensure_semantics
+        from . import e7
+        decided = ensure_semantics(ctx, cfg, P)
+        rep.rule('WRITER-1', 'semantics of the phrase writer (found by role: the library function polyseed_encode\'s side calls with a cursor and a word / separator string of a language '
+                 'table), by abstract interpretation over the string abstraction with exact positions, for all source strings of up to %d bytes (every word and separator of the tables is '
+                 'shorter): bytes 0..L-1 of the source are copied in order to the L bytes the cursor points at, the cursor advances by exactly L, no terminator and nothing else is '
+                 'written, nothing is read past the source\'s terminator' % e7.WRITER_MAXLEN)
+        wfs = writer_functions(P)
+        for g, cur_, src_ in wfs:
+            r = e7.writer(ctx, cfg, P, g, cur_, src_)
+            w = '%s:%s' % ((g.file or '').replace('/repo/', ''), g.line); cons = base_name(g.name)
+            if r.status == 'found':
+                rep.fail('%s: %s' % (cons, r.exc.detail), r.exc.loc if r.exc.loc != '?' else w, '%s: %s' % (cons, r.exc.kind), detail={'kind': r.exc.kind, 'detail': r.exc.detail}, key='WRITER-1|%s|%s' % (cons, r.exc.kind))
+            elif r.status == 'imprecise':
+                rep.notes.append('WRITER-1 not decided for %s: %s' % (cons, r.why)); rep.ok('%s: outside the string abstraction (%s) - the structural rule HELP-1 applies' % (cons, r.why[:80]))
+            else:
+                rep.check(r.status == 'ok', '%s copies exactly the source up to its NUL and advances the cursor by its length (%d abstract states)' % (cons, r.ex.nstates), w,
+                          '%s deviates from "append the source string"' % cons, detail={'disagreements': len(r.bad), 'first': r.bad[:2]}, sample={'function': cons, 'abstract_states': r.ex.nstates}, key='WRITER-1|%s' % cons)
+        rep.rule('HELP-1', 'fallback where WRITER-1 is not decided - the writer copies the source up to, not including, its NUL: one loop whose only exit is the NUL test of the source byte at the '
                  'current position; each iteration stores that same byte at the corresponding destination position and advances by one (pointer-walking '
                  'or index form); the caller\'s cursor receives the final destination position')
-        for g in P.fns('write_str'):
+        for g, cur_, src_a in wfs:
+            if g.name in decided: continue
             w = '%s:%s' % ((g.file or '').replace('/repo/', ''), g.line)
-            src = cursor_family(g, 1)
+            src = cursor_family(g, src_a)
             loopblocks = set()
             for b_ in range(len(g.blocks)):
                 seen = set(); st_ = list(g.succs[b_])
@@ -441,9 +474,10 @@ def helper_contracts(ctx, rep):
                                 ok2 = ok2 and bb_ == ('i', ph.id) and o_ == 1
                     ok2 = ok2 and len(phis) == 2
             rep.check(ok2, 'each iteration copies the byte under the source position to the destination position and advances both by one', w, '%s loop body' % base_name(g.name), key='HELP-1|body')
-        rep.rule('HELP-2', 'utf8_nfkd_lazy returns either the value returned by dep:u8_nfkd (non-ASCII input) or the number of bytes it copied, which is the '
-                 'index at which it stores the terminator')
-        for g in P.fns('utf8_nfkd_lazy'):
+        rep.rule('HELP-2', 'fallback where LAZY-1 is not decided - the lazy normaliser front end returns either the value returned by dep:u8_nfkd (non-ASCII input) or the number '
+                 'of bytes it copied, which is the index at which it stores the terminator')
+        for g in [r_.fn for r_ in P.roles('lazy')]:
+            if g.name in decided: continue
             w = '%s:%s' % ((g.file or '').replace('/repo/', ''), g.line)
             from .paths import feasible_walks
             term_idx = set()
